@@ -46,6 +46,8 @@ Record mstate := {
   gone : list conn;                                     (* clients that closed their socket: they see no further frame *)
   mqsubs : list rid;                                    (* resources with a standing event subscription *)
   thr : nat;                                            (* resetThrottle of the gateway under test (0 = unlimited) *)
+  rsflag : list rid;                                    (* resources whose re-fetch the gateway has started and not finished processing
+                                                           (between the site marks reset.start and reset.done) *)
   stale : list rid;                                     (* resources whose reset re-fetch failed (service fault): events that arrived
                                                            during the re-fetch are lost with it, so convergence is not owed until
                                                            the next successful re-fetch *)
@@ -65,34 +67,34 @@ Record mstate := {
 }.
 
 Definition mstate0 : mstate :=
-  {| clients := []; reqs := []; stream := []; ptrs := []; viols := []; pos := 0; gone := []; mqsubs := []; fetched := []; connsubs := []; settled_gone := []; accreq := []; lastacc := []; reqpos := []; resetting := []; due := []; task_open := None; qexpect := []; pgets := []; thr := 0; single := 0; legacy := []; stale := [] |}.
+  {| clients := []; reqs := []; stream := []; ptrs := []; viols := []; pos := 0; gone := []; mqsubs := []; fetched := []; connsubs := []; settled_gone := []; accreq := []; lastacc := []; reqpos := []; resetting := []; due := []; task_open := None; qexpect := []; pgets := []; thr := 0; single := 0; legacy := []; stale := []; rsflag := [] |}.
 
 Definition get_client (st : mstate) (c : conn) : client :=
   match lookup c (clients st) with Some cl => cl | None => client0 end.
 
 Definition set_client (st : mstate) (c : conn) (cl : client) : mstate :=
-  {| clients := set_k c cl (clients st); reqs := reqs st; stream := stream st; ptrs := ptrs st; viols := viols st; pos := pos st; gone := gone st; mqsubs := mqsubs st; fetched := fetched st; connsubs := connsubs st; settled_gone := settled_gone st; accreq := accreq st; lastacc := lastacc st; reqpos := reqpos st; resetting := resetting st; due := due st; task_open := task_open st; qexpect := qexpect st; pgets := pgets st; thr := thr st; single := single st; legacy := legacy st; stale := stale st |}.
+  {| clients := set_k c cl (clients st); reqs := reqs st; stream := stream st; ptrs := ptrs st; viols := viols st; pos := pos st; gone := gone st; mqsubs := mqsubs st; fetched := fetched st; connsubs := connsubs st; settled_gone := settled_gone st; accreq := accreq st; lastacc := lastacc st; reqpos := reqpos st; resetting := resetting st; due := due st; task_open := task_open st; qexpect := qexpect st; pgets := pgets st; thr := thr st; single := single st; legacy := legacy st; stale := stale st; rsflag := rsflag st |}.
 
 Definition add_viol (st : mstate) (k : vkind) (c : conn) (r : rid) : mstate :=
   {| clients := clients st; reqs := reqs st; stream := stream st; ptrs := ptrs st;
-     viols := viols st ++ [{| v_kind := k; v_c := c; v_r := r; v_pos := pos st |}]; pos := pos st; gone := gone st; mqsubs := mqsubs st; fetched := fetched st; connsubs := connsubs st; settled_gone := settled_gone st; accreq := accreq st; lastacc := lastacc st; reqpos := reqpos st; resetting := resetting st; due := due st; task_open := task_open st; qexpect := qexpect st; pgets := pgets st; thr := thr st; single := single st; legacy := legacy st; stale := stale st |}.
+     viols := viols st ++ [{| v_kind := k; v_c := c; v_r := r; v_pos := pos st |}]; pos := pos st; gone := gone st; mqsubs := mqsubs st; fetched := fetched st; connsubs := connsubs st; settled_gone := settled_gone st; accreq := accreq st; lastacc := lastacc st; reqpos := reqpos st; resetting := resetting st; due := due st; task_open := task_open st; qexpect := qexpect st; pgets := pgets st; thr := thr st; single := single st; legacy := legacy st; stale := stale st; rsflag := rsflag st |}.
 
 Definition set_reqs (st : mstate) (q : list (conn * (nat * (rkind * rid * Z)))) : mstate :=
-  {| clients := clients st; reqs := q; stream := stream st; ptrs := ptrs st; viols := viols st; pos := pos st; gone := gone st; mqsubs := mqsubs st; fetched := fetched st; connsubs := connsubs st; settled_gone := settled_gone st; accreq := accreq st; lastacc := lastacc st; reqpos := reqpos st; resetting := resetting st; due := due st; task_open := task_open st; qexpect := qexpect st; pgets := pgets st; thr := thr st; single := single st; legacy := legacy st; stale := stale st |}.
+  {| clients := clients st; reqs := q; stream := stream st; ptrs := ptrs st; viols := viols st; pos := pos st; gone := gone st; mqsubs := mqsubs st; fetched := fetched st; connsubs := connsubs st; settled_gone := settled_gone st; accreq := accreq st; lastacc := lastacc st; reqpos := reqpos st; resetting := resetting st; due := due st; task_open := task_open st; qexpect := qexpect st; pgets := pgets st; thr := thr st; single := single st; legacy := legacy st; stale := stale st; rsflag := rsflag st |}.
 Definition set_ptrs (st : mstate) (p : list (conn * (rid * list nat))) : mstate :=
-  {| clients := clients st; reqs := reqs st; stream := stream st; ptrs := p; viols := viols st; pos := pos st; gone := gone st; mqsubs := mqsubs st; fetched := fetched st; connsubs := connsubs st; settled_gone := settled_gone st; accreq := accreq st; lastacc := lastacc st; reqpos := reqpos st; resetting := resetting st; due := due st; task_open := task_open st; qexpect := qexpect st; pgets := pgets st; thr := thr st; single := single st; legacy := legacy st; stale := stale st |}.
+  {| clients := clients st; reqs := reqs st; stream := stream st; ptrs := p; viols := viols st; pos := pos st; gone := gone st; mqsubs := mqsubs st; fetched := fetched st; connsubs := connsubs st; settled_gone := settled_gone st; accreq := accreq st; lastacc := lastacc st; reqpos := reqpos st; resetting := resetting st; due := due st; task_open := task_open st; qexpect := qexpect st; pgets := pgets st; thr := thr st; single := single st; legacy := legacy st; stale := stale st; rsflag := rsflag st |}.
 Definition set_stream (st : mstate) (s : list (rid * list sevent)) : mstate :=
-  {| clients := clients st; reqs := reqs st; stream := s; ptrs := ptrs st; viols := viols st; pos := pos st; gone := gone st; mqsubs := mqsubs st; fetched := fetched st; connsubs := connsubs st; settled_gone := settled_gone st; accreq := accreq st; lastacc := lastacc st; reqpos := reqpos st; resetting := resetting st; due := due st; task_open := task_open st; qexpect := qexpect st; pgets := pgets st; thr := thr st; single := single st; legacy := legacy st; stale := stale st |}.
+  {| clients := clients st; reqs := reqs st; stream := s; ptrs := ptrs st; viols := viols st; pos := pos st; gone := gone st; mqsubs := mqsubs st; fetched := fetched st; connsubs := connsubs st; settled_gone := settled_gone st; accreq := accreq st; lastacc := lastacc st; reqpos := reqpos st; resetting := resetting st; due := due st; task_open := task_open st; qexpect := qexpect st; pgets := pgets st; thr := thr st; single := single st; legacy := legacy st; stale := stale st; rsflag := rsflag st |}.
 Definition bump (st : mstate) : mstate :=
-  {| clients := clients st; reqs := reqs st; stream := stream st; ptrs := ptrs st; viols := viols st; pos := S (pos st); gone := gone st; mqsubs := mqsubs st; fetched := fetched st; connsubs := connsubs st; settled_gone := settled_gone st; accreq := accreq st; lastacc := lastacc st; reqpos := reqpos st; resetting := resetting st; due := due st; task_open := task_open st; qexpect := qexpect st; pgets := pgets st; thr := thr st; single := single st; legacy := legacy st; stale := stale st |}.
+  {| clients := clients st; reqs := reqs st; stream := stream st; ptrs := ptrs st; viols := viols st; pos := S (pos st); gone := gone st; mqsubs := mqsubs st; fetched := fetched st; connsubs := connsubs st; settled_gone := settled_gone st; accreq := accreq st; lastacc := lastacc st; reqpos := reqpos st; resetting := resetting st; due := due st; task_open := task_open st; qexpect := qexpect st; pgets := pgets st; thr := thr st; single := single st; legacy := legacy st; stale := stale st; rsflag := rsflag st |}.
 
 Definition set_acc (st : mstate) (ar : list (nat * (conn * rid))) (la : list (conn * (rid * option nat))) : mstate :=
   {| clients := clients st; reqs := reqs st; stream := stream st; ptrs := ptrs st; viols := viols st; pos := pos st;
-     gone := gone st; mqsubs := mqsubs st; fetched := fetched st; connsubs := connsubs st; settled_gone := settled_gone st; accreq := ar; lastacc := la; reqpos := reqpos st; resetting := resetting st; due := due st; task_open := task_open st; qexpect := qexpect st; pgets := pgets st; thr := thr st; single := single st; legacy := legacy st; stale := stale st |}.
+     gone := gone st; mqsubs := mqsubs st; fetched := fetched st; connsubs := connsubs st; settled_gone := settled_gone st; accreq := ar; lastacc := la; reqpos := reqpos st; resetting := resetting st; due := due st; task_open := task_open st; qexpect := qexpect st; pgets := pgets st; thr := thr st; single := single st; legacy := legacy st; stale := stale st; rsflag := rsflag st |}.
 Definition set_reqpos (st : mstate) (rp : list (conn * (nat * nat))) : mstate :=
   {| clients := clients st; reqs := reqs st; stream := stream st; ptrs := ptrs st; viols := viols st; pos := pos st;
      gone := gone st; mqsubs := mqsubs st; fetched := fetched st; connsubs := connsubs st; settled_gone := settled_gone st;
-     accreq := accreq st; lastacc := lastacc st; reqpos := rp; resetting := resetting st; due := due st; task_open := task_open st; qexpect := qexpect st; pgets := pgets st; thr := thr st; single := single st; legacy := legacy st; stale := stale st |}.
+     accreq := accreq st; lastacc := lastacc st; reqpos := rp; resetting := resetting st; due := due st; task_open := task_open st; qexpect := qexpect st; pgets := pgets st; thr := thr st; single := single st; legacy := legacy st; stale := stale st; rsflag := rsflag st |}.
 
 Definition stream_of (st : mstate) (r : rid) : list sevent :=
   match lookup r (stream st) with Some s => s | None => [] end.
@@ -227,7 +229,7 @@ Definition check_served_hook (st : mstate) (c : conn) (rs : rset) : mstate :=
                                else {| clients := clients s; reqs := reqs s; stream := stream s; ptrs := ptrs s;
                                        viols := viols s ++ [{| v_kind := VServedUnsubscribed; v_c := c; v_r := fst x; v_pos := pos s |}];
                                        pos := pos s; gone := gone s; mqsubs := mqsubs s; fetched := fetched s;
-                                       connsubs := connsubs s; settled_gone := settled_gone s; accreq := accreq s; lastacc := lastacc s; reqpos := reqpos s; resetting := resetting s; due := due s; task_open := task_open s; qexpect := qexpect s; pgets := pgets s; thr := thr s; single := single s; legacy := legacy s; stale := stale s |}
+                                       connsubs := connsubs s; settled_gone := settled_gone s; accreq := accreq s; lastacc := lastacc s; reqpos := reqpos s; resetting := resetting s; due := due s; task_open := task_open s; qexpect := qexpect s; pgets := pgets s; thr := thr s; single := single s; legacy := legacy s; stale := stale s; rsflag := rsflag s |}
                         end) rs st.
 
 Definition merge_into (st : mstate) (c : conn) (rs : rset) : mstate :=
@@ -320,34 +322,37 @@ Definition frame_conn (e : tev) : option conn :=
   end.
 
 Definition set_gone (st : mstate) (c : conn) : mstate :=
-  {| clients := clients st; reqs := reqs st; stream := stream st; ptrs := ptrs st; viols := viols st; pos := pos st; gone := c :: gone st; mqsubs := mqsubs st; fetched := fetched st; connsubs := connsubs st; settled_gone := settled_gone st; accreq := accreq st; lastacc := lastacc st; reqpos := reqpos st; resetting := resetting st; due := due st; task_open := task_open st; qexpect := qexpect st; pgets := pgets st; thr := thr st; single := single st; legacy := legacy st; stale := stale st |}.
+  {| clients := clients st; reqs := reqs st; stream := stream st; ptrs := ptrs st; viols := viols st; pos := pos st; gone := c :: gone st; mqsubs := mqsubs st; fetched := fetched st; connsubs := connsubs st; settled_gone := settled_gone st; accreq := accreq st; lastacc := lastacc st; reqpos := reqpos st; resetting := resetting st; due := due st; task_open := task_open st; qexpect := qexpect st; pgets := pgets st; thr := thr st; single := single st; legacy := legacy st; stale := stale st; rsflag := rsflag st |}.
 
 Definition set_cache (st : mstate) (ms fs : list rid) : mstate :=
   {| clients := clients st; reqs := reqs st; stream := stream st; ptrs := ptrs st; viols := viols st; pos := pos st;
-     gone := gone st; mqsubs := ms; fetched := fs; connsubs := connsubs st; settled_gone := settled_gone st; accreq := accreq st; lastacc := lastacc st; reqpos := reqpos st; resetting := resetting st; due := due st; task_open := task_open st; qexpect := qexpect st; pgets := pgets st; thr := thr st; single := single st; legacy := legacy st; stale := stale st |}.
+     gone := gone st; mqsubs := ms; fetched := fs; connsubs := connsubs st; settled_gone := settled_gone st; accreq := accreq st; lastacc := lastacc st; reqpos := reqpos st; resetting := resetting st; due := due st; task_open := task_open st; qexpect := qexpect st; pgets := pgets st; thr := thr st; single := single st; legacy := legacy st; stale := stale st; rsflag := rsflag st |}.
 Definition set_conns (st : mstate) (cs sg : list conn) : mstate :=
   {| clients := clients st; reqs := reqs st; stream := stream st; ptrs := ptrs st; viols := viols st; pos := pos st;
-     gone := gone st; mqsubs := mqsubs st; fetched := fetched st; connsubs := cs; settled_gone := sg; accreq := accreq st; lastacc := lastacc st; reqpos := reqpos st; resetting := resetting st; due := due st; task_open := task_open st; qexpect := qexpect st; pgets := pgets st; thr := thr st; single := single st; legacy := legacy st; stale := stale st |}.
+     gone := gone st; mqsubs := mqsubs st; fetched := fetched st; connsubs := cs; settled_gone := sg; accreq := accreq st; lastacc := lastacc st; reqpos := reqpos st; resetting := resetting st; due := due st; task_open := task_open st; qexpect := qexpect st; pgets := pgets st; thr := thr st; single := single st; legacy := legacy st; stale := stale st; rsflag := rsflag st |}.
 Definition set_reset (st : mstate) (rs : list (rid * option nat)) (du : list rid) (tk : option rid) : mstate :=
   {| clients := clients st; reqs := reqs st; stream := stream st; ptrs := ptrs st; viols := viols st; pos := pos st;
      gone := gone st; mqsubs := mqsubs st; fetched := fetched st; connsubs := connsubs st; settled_gone := settled_gone st;
-     accreq := accreq st; lastacc := lastacc st; reqpos := reqpos st; resetting := rs; due := du; task_open := tk; qexpect := qexpect st; pgets := pgets st; thr := thr st; single := single st; legacy := legacy st; stale := stale st |}.
+     accreq := accreq st; lastacc := lastacc st; reqpos := reqpos st; resetting := rs; due := du; task_open := tk; qexpect := qexpect st; pgets := pgets st; thr := thr st; single := single st; legacy := legacy st; stale := stale st; rsflag := rsflag st |}.
 Definition set_qexpect (st : mstate) (q : list (rid * nat)) : mstate :=
   {| clients := clients st; reqs := reqs st; stream := stream st; ptrs := ptrs st; viols := viols st; pos := pos st;
      gone := gone st; mqsubs := mqsubs st; fetched := fetched st; connsubs := connsubs st; settled_gone := settled_gone st;
-     accreq := accreq st; lastacc := lastacc st; reqpos := reqpos st; resetting := resetting st; due := due st; task_open := task_open st; qexpect := q; pgets := pgets st; thr := thr st; single := single st; legacy := legacy st; stale := stale st |}.
+     accreq := accreq st; lastacc := lastacc st; reqpos := reqpos st; resetting := resetting st; due := due st; task_open := task_open st; qexpect := q; pgets := pgets st; thr := thr st; single := single st; legacy := legacy st; stale := stale st; rsflag := rsflag st |}.
 
 Definition set_pgets (st : mstate) (p : list (nat * rid)) : mstate :=
-  {| clients := clients st; reqs := reqs st; stream := stream st; ptrs := ptrs st; viols := viols st; pos := pos st; gone := gone st; mqsubs := mqsubs st; fetched := fetched st; connsubs := connsubs st; settled_gone := settled_gone st; accreq := accreq st; lastacc := lastacc st; reqpos := reqpos st; resetting := resetting st; due := due st; task_open := task_open st; qexpect := qexpect st; pgets := p; thr := thr st; single := single st; legacy := legacy st; stale := stale st |}.
+  {| clients := clients st; reqs := reqs st; stream := stream st; ptrs := ptrs st; viols := viols st; pos := pos st; gone := gone st; mqsubs := mqsubs st; fetched := fetched st; connsubs := connsubs st; settled_gone := settled_gone st; accreq := accreq st; lastacc := lastacc st; reqpos := reqpos st; resetting := resetting st; due := due st; task_open := task_open st; qexpect := qexpect st; pgets := p; thr := thr st; single := single st; legacy := legacy st; stale := stale st; rsflag := rsflag st |}.
 
 Definition set_thr (st : mstate) (n : nat) (sg : nat) : mstate :=
-  {| clients := clients st; reqs := reqs st; stream := stream st; ptrs := ptrs st; viols := viols st; pos := pos st; gone := gone st; mqsubs := mqsubs st; fetched := fetched st; connsubs := connsubs st; settled_gone := settled_gone st; accreq := accreq st; lastacc := lastacc st; reqpos := reqpos st; resetting := resetting st; due := due st; task_open := task_open st; qexpect := qexpect st; pgets := pgets st; thr := n; single := sg; legacy := legacy st; stale := stale st |}.
+  {| clients := clients st; reqs := reqs st; stream := stream st; ptrs := ptrs st; viols := viols st; pos := pos st; gone := gone st; mqsubs := mqsubs st; fetched := fetched st; connsubs := connsubs st; settled_gone := settled_gone st; accreq := accreq st; lastacc := lastacc st; reqpos := reqpos st; resetting := resetting st; due := due st; task_open := task_open st; qexpect := qexpect st; pgets := pgets st; thr := n; single := sg; legacy := legacy st; stale := stale st; rsflag := rsflag st |}.
 
 Definition set_legacy (st : mstate) (l : list conn) : mstate :=
-  {| clients := clients st; reqs := reqs st; stream := stream st; ptrs := ptrs st; viols := viols st; pos := pos st; gone := gone st; mqsubs := mqsubs st; fetched := fetched st; connsubs := connsubs st; settled_gone := settled_gone st; accreq := accreq st; lastacc := lastacc st; reqpos := reqpos st; resetting := resetting st; due := due st; task_open := task_open st; qexpect := qexpect st; pgets := pgets st; thr := thr st; single := single st; legacy := l; stale := stale st |}.
+  {| clients := clients st; reqs := reqs st; stream := stream st; ptrs := ptrs st; viols := viols st; pos := pos st; gone := gone st; mqsubs := mqsubs st; fetched := fetched st; connsubs := connsubs st; settled_gone := settled_gone st; accreq := accreq st; lastacc := lastacc st; reqpos := reqpos st; resetting := resetting st; due := due st; task_open := task_open st; qexpect := qexpect st; pgets := pgets st; thr := thr st; single := single st; legacy := l; stale := stale st; rsflag := rsflag st |}.
 
 Definition set_stale (st : mstate) (l : list rid) : mstate :=
-  {| clients := clients st; reqs := reqs st; stream := stream st; ptrs := ptrs st; viols := viols st; pos := pos st; gone := gone st; mqsubs := mqsubs st; fetched := fetched st; connsubs := connsubs st; settled_gone := settled_gone st; accreq := accreq st; lastacc := lastacc st; reqpos := reqpos st; resetting := resetting st; due := due st; task_open := task_open st; qexpect := qexpect st; pgets := pgets st; thr := thr st; single := single st; legacy := legacy st; stale := l |}.
+  {| clients := clients st; reqs := reqs st; stream := stream st; ptrs := ptrs st; viols := viols st; pos := pos st; gone := gone st; mqsubs := mqsubs st; fetched := fetched st; connsubs := connsubs st; settled_gone := settled_gone st; accreq := accreq st; lastacc := lastacc st; reqpos := reqpos st; resetting := resetting st; due := due st; task_open := task_open st; qexpect := qexpect st; pgets := pgets st; thr := thr st; single := single st; legacy := legacy st; stale := l; rsflag := rsflag st |}.
+
+Definition set_rsflag (st : mstate) (l : list rid) : mstate :=
+  {| clients := clients st; reqs := reqs st; stream := stream st; ptrs := ptrs st; viols := viols st; pos := pos st; gone := gone st; mqsubs := mqsubs st; fetched := fetched st; connsubs := connsubs st; settled_gone := settled_gone st; accreq := accreq st; lastacc := lastacc st; reqpos := reqpos st; resetting := resetting st; due := due st; task_open := task_open st; qexpect := qexpect st; pgets := pgets st; thr := thr st; single := single st; legacy := legacy st; stale := stale st; rsflag := l |}.
 Definition set_resetting (st : mstate) (rs : list (rid * option nat)) : mstate := set_reset st rs (due st) (task_open st).
 Definition remove_rid (r : rid) (l : list rid) : list rid := filter (fun x => negb (Nat.eqb x r)) l.
 
@@ -371,7 +376,11 @@ Definition on_reset_task (st : mstate) (r : rid) (started : bool) (noop : bool) 
   | Some l' =>
       let st := set_stream st (set_k r l' (stream st)) in
       if started then set_reset st ((r, None) :: filter (fun x => negb (Nat.eqb (fst x) r)) (resetting st)) (remove_rid r (due st)) None
-      else if noop then set_reset st (resetting st) (remove_rid r (due st)) None
+      else if noop then
+             (* "already resetting": legitimate only while a re-fetch of r is in progress; otherwise r stays due *)
+             if existsb (fun x => Nat.eqb (fst x) r) (resetting st) || mem r (rsflag st)
+             then set_reset st (resetting st) (remove_rid r (due st)) None
+             else set_reset st (resetting st) (due st) None
       else set_reset st (resetting st) (due st) None
   end.
 
@@ -606,7 +615,8 @@ Definition step (st : mstate) (e : tev) : mstate :=
   | TQueryAnswered aliases =>
       fold_left (fun s r => set_stream s (set_k r (stream_of s r ++ [SResetEnd]) (stream s))) aliases st
   | TResetTask r => set_reset st (resetting st) (due st) (Some r)
-  | TResetStart r => on_reset_task st r true false
+  | TResetStart r => on_reset_task (set_rsflag st (r :: rsflag st)) r true false
+  | TResetDone r => set_rsflag st (filter (fun x => negb (Nat.eqb x r)) (rsflag st))
   | TResetNoop r => on_reset_task st r false true
   | TConnSub c => set_conns st (c :: connsubs st) (settled_gone st)
   | TConnUnsub c =>
